@@ -66,7 +66,12 @@ func TestVerifC16(t *testing.T) {
 
 	// ---- byte stream: corpus, exhaustive small scripts, random scripts
 	timed("read-corpus", func() { c16ReadCorpus(out) })
-	timed("read-exhaustive", func() { c16ReadExhaustive(out, vlib.Budget(2, 3)) })
+	// the depth of the enumeration is a tier constant, not a budget: the 4x search budget must not deepen it
+	exhaustive := 2
+	if thorough {
+		exhaustive = 3
+	}
+	timed("read-exhaustive", func() { c16ReadExhaustive(out, exhaustive) })
 	timed("read-random", func() { c16ReadRandom(out, r, vlib.Budget(1500, 40000)) })
 
 	// ---- flow control
@@ -131,7 +136,14 @@ func c16Replay(t *testing.T, out *vlib.Out, path string) {
 			c := &c16ReadCase{hbMode: f[0] == "hbsctp"}
 			fmt.Sscan(f[1], &c.maxMsg)
 			if c.hbMode {
-				c.hb = c16Unhex(f[2])
+				switch {
+				case strings.HasPrefix(f[2], "nil:"):
+					c.hbConf, c.hb, c.guard = "nil", defaultConfig.Heartbeat, 6*time.Second
+				case strings.HasPrefix(f[2], "empty:"):
+					c.hbConf, c.hb, c.guard = "empty", defaultConfig.Heartbeat, 6*time.Second
+				default:
+					c.hb = c16Unhex(f[2])
+				}
 			}
 			if f[3] != "" {
 				for _, it := range strings.Split(f[3], ";") {
@@ -150,8 +162,9 @@ func c16Replay(t *testing.T, out *vlib.Out, path string) {
 					c.sizes = append(c.sizes, m)
 				}
 			}
+			c.late = c.hbMode && len(c.items) > recvChBufSize
 			reps := 1
-			if c.hbMode {
+			if c.hbMode && c.hbConf == "" {
 				reps = 30 // the close race of the unrepaired code is probabilistic
 			}
 			for i := 0; i < reps; i++ {
